@@ -124,8 +124,12 @@ class C08Oracle(Oracle):
         return len(w.c08)  # type: ignore[attr-defined]
 
 
-def factory(noise: bool, seed: str) -> LifeHarness:
+def factory(noise: bool, seed: str, app_fails: str = "") -> LifeHarness:
+    """app_fails: "" | "sub:<Exception>" (a subscriber of sensor states raises) | "stop" (the stop callback raises) | both joined by +."""
+    sub = next((x[4:] for x in app_fails.split("+") if x.startswith("sub:")), None)
     return LifeHarness(
+        subscriber_raises=sub,
+        stop_raises="stop" in app_fails.split("+"),
         noise=noise,
         seed=seed,
         atoms=ATOMS_NOISE if noise else ATOMS_PLAIN,
@@ -400,21 +404,29 @@ def run(tier: str, seed: int) -> Result:
         cfgs.append((False, s, 3 if tier == "quick" else 4, 1 if tier == "quick" else 2))
     for s in ("hswait", "hello_sent", "connected"):
         cfgs.append((True, s, 2 if tier == "quick" else 3, 1 if tier == "quick" else 2))
+    # application code that fails while the connection closes: a raising subscriber (one more close cause), a raising stop callback
+    # (whatever ends the session, everything is released and every waiter is told), and both
+    for s in ("connected", "req_pending", "pong_due"):
+        for af in ("sub:ValueError", "stop", "sub:StopIteration+stop"):
+            cfgs.append((False, s, 2 if tier == "quick" else 3, 1, af))
+    cfgs.append((True, "req_pending", 2, 1, "stop"))
     budget = 70.0 if tier == "quick" else 1500.0
     t_end = time.monotonic() + budget
     per_cfg = []
-    for i, (noise, sd, depth, bound) in enumerate(cfgs):
+    for i, cfg in enumerate(cfgs):
+        noise, sd, depth, bound = cfg[:4]
+        app_fails = cfg[4] if len(cfg) > 4 else ""
         left = max(5.0, (t_end - time.monotonic()) / (len(cfgs) - i))
-        st = explore_parallel(factory, (noise, sd), depth=depth, bound=bound, budget_s=left, split_depth=1)
-        per_cfg.append({"noise": noise, "seed_state": sd, "depth": depth, "deviation_bound": bound, "executions": st.executions,
+        st = explore_parallel(factory, (noise, sd, app_fails), depth=depth, bound=bound, budget_s=left, split_depth=1)
+        per_cfg.append({"noise": noise, "seed_state": sd, "application_failures": app_fails, "depth": depth, "deviation_bound": bound, "executions": st.executions,
                         "states": st.states, "time_capped": st.time_capped})
         for v in st.violations:
             clause = next((c for c in v["violated"] if c.startswith("C08")), None)
             if clause is None:
                 continue
             kind = ":".join(clause.split(":")[:2])
-            res.add(f"explore:{'noise' if noise else 'plain'}:{sd}:{kind}", clause,
-                    {"harness": "lifecycle", "noise": noise, "seed_state": sd, "choices": v["choices"], "violated": v["violated"],
+            res.add(f"explore:{'noise' if noise else 'plain'}:{sd}{':' + app_fails if app_fails else ''}:{kind}", clause,
+                    {"harness": "lifecycle", "noise": noise, "seed_state": sd, "app_fails": app_fails, "choices": v["choices"], "violated": v["violated"],
                      "observations": v["observations"]})
         total.merge(st)
     evals = sweep["sweep_runs"] + total.executions
@@ -454,7 +466,7 @@ def replay(rp: dict[str, Any]) -> bool:
             print(line)
         print("violated:", o["viol"])
         return not o["viol"]
-    h = factory(d["noise"], d["seed_state"])
+    h = factory(d["noise"], d["seed_state"], d.get("app_fails", ""))
     w = h.fresh()
     try:
         v: list[str] = []
